@@ -2,6 +2,7 @@ package main
 
 import (
 	"bufio"
+	"context"
 	"encoding/hex"
 	"fmt"
 	"io"
@@ -572,6 +573,38 @@ func crashChild(path string, seed int64, wl int, exitAt int64, post bool, atOpen
 	os.Exit(0) // without Close: the process just ends
 }
 
+// crashChildBig acknowledges a baseline of 300 values, then dies inside ONE transaction that has
+// overwritten all of them and added 1500 more (about 5 MB of changed pages, more than the page
+// cache holds, so that SQLite has had to write uncommitted pages out).
+func crashChildBig(path string) {
+	db, err := redka.Open(path, nil)
+	if err != nil {
+		fmt.Println("OPENERR", err)
+		os.Exit(3)
+	}
+	for i := 0; i < 300; i++ {
+		if err := db.Str().Set(fmt.Sprintf("b%03d", i), strings.Repeat("o", 3000)); err != nil {
+			fmt.Println("SETERR", err)
+			os.Exit(3)
+		}
+	}
+	_, _ = db.Hash().Set("bh", "f", "v")
+	fmt.Println("BASELINE")
+	_ = db.Update(func(tx *redka.Tx) error {
+		for i := 0; i < 300; i++ {
+			_ = tx.Str().Set(fmt.Sprintf("b%03d", i), strings.Repeat("N", 3000))
+		}
+		for i := 0; i < 1500; i++ {
+			_ = tx.Str().Set(fmt.Sprintf("n%04d", i), strings.Repeat("n", 3000))
+		}
+		_, _ = tx.Key().Delete("bh")
+		fmt.Println("INFLIGHT")
+		os.Exit(77) // the process dies before the commit
+		return nil
+	})
+	os.Exit(0)
+}
+
 func contentAfter(seed int64, wl int, nOps int) (string, error) {
 	db, err := redka.Open(fmt.Sprintf("file:/c09twin_%d_%d.db?vfs=memdb", time.Now().UnixNano(), nOps), nil)
 	if err != nil {
@@ -701,6 +734,48 @@ func runC09(seed int64, n int, long bool) {
 		os.Remove(path)
 		os.Remove(path + "-wal")
 		os.Remove(path + "-shm")
+	}
+	// (0) death inside one large uncommitted transaction: the acknowledged baseline must be intact
+	{
+		path := filepath.Join(dir, "big.db")
+		out, _ := exec.Command(self, "-child", path, "-childbig").Output()
+		sum.Cases++
+		count("large_transaction_crash")
+		if !strings.Contains(string(out), "INFLIGHT") {
+			fail("harness", "large-transaction child did not reach the transaction: "+string(out), nil)
+			return
+		}
+		x, err := hx.OpenPath(path)
+		if err != nil {
+			fail("c09-reopen", "after a crash inside a large uncommitted transaction the database does not re-open: "+err.Error(), nil)
+			return
+		}
+		bad, missing, extra := 0, 0, 0
+		var firstErr error
+		for i := 0; i < 300; i++ {
+			v, err := x.DB.Str().Get(fmt.Sprintf("b%03d", i))
+			if err != nil {
+				missing++
+				if firstErr == nil {
+					firstErr = err
+				}
+			} else if v.String() != strings.Repeat("o", 3000) {
+				bad++
+			}
+		}
+		if n, err := x.DB.Key().Len(); err == nil {
+			extra = n - 301
+		} else if firstErr == nil {
+			firstErr = err
+		}
+		var ic string
+		_ = x.Raw.QueryRow("pragma integrity_check").Scan(&ic)
+		if bad > 0 || missing > 0 || extra != 0 || ic != "ok" {
+			fail("c09-content", fmt.Sprintf("a process died inside one large uncommitted transaction (300 acknowledged values overwritten, 1500 added, one key deleted): after re-opening, %d acknowledged values hold in-flight data, %d cannot be read (%v), %d keys too many; integrity_check: %s",
+				bad, missing, firstErr, extra, ic), nil)
+		}
+		x.Close()
+		cleanup(path)
 	}
 	// (1) crashes during the very first Open of a new file
 	{
@@ -1003,12 +1078,31 @@ type bgRun struct {
 }
 
 func startBg(dir, name string, opts *redka.Options, total int, expired func(i int) bool) (*bgRun, error) {
+	return startBgLoad(dir, name, opts, total, expired, true)
+}
+
+func startBgLoad(dir, name string, opts *redka.Options, total int, expired func(i int) bool, load bool) (*bgRun, error) {
 	x, err := hx.OpenPathOpts(filepath.Join(dir, name+".db"), opts)
 	if err != nil {
 		return nil, err
 	}
 	b := &bgRun{x: x, name: name, opened: time.Now(), stop: make(chan struct{})}
 	b.live, b.dead = populate(x, total, expired)
+	// make database/sql replace the read-write connection before the tick (a transaction whose
+	// context is cancelled while it runs): the reclamation must work on the new connection as well
+	{
+		ctx, cancel := context.WithCancel(context.Background())
+		_ = x.DB.UpdateContext(ctx, func(tx *redka.Tx) error {
+			_ = tx.Str().Set("cancelled-1", "1")
+			cancel()
+			_ = tx.Str().Set("cancelled-2", "2")
+			return nil
+		})
+		cancel()
+	}
+	if !load {
+		return b, nil
+	}
 	b.wg.Add(1)
 	go func() {
 		defer b.wg.Done()
@@ -1187,4 +1281,26 @@ func runC20(seed int64, n int, long bool) {
 	bgC.dead = 1500
 	// everything has expired 40 s after the population; the tick at 60 s must take all of it
 	bgC.finish(limit)
+	if len(sum.Failures) > 0 {
+		return
+	}
+	// a tick that fails (another connection holds the write lock across it for longer than the
+	// busy timeout) must not end the reclamation: the next tick, one period later, does the work
+	bgD, err := startBgLoad(dir, "after-a-failed-tick", nil, 300, func(i int) bool { return i%2 == 0 }, false)
+	if err != nil {
+		fail("harness", err.Error(), nil)
+		return
+	}
+	time.Sleep(time.Until(bgD.opened.Add(56 * time.Second)))
+	if _, err := bgD.x.Raw.Exec("BEGIN IMMEDIATE"); err != nil {
+		fail("harness", "cannot take the write lock: "+err.Error(), nil)
+		return
+	}
+	time.Sleep(time.Until(bgD.opened.Add(68 * time.Second)))
+	_, _ = bgD.x.Raw.Exec("ROLLBACK")
+	rc, _ := rowCounts(bgD.x)
+	if rc["rkey"] <= bgD.live+1 {
+		count("failed_tick_not_provoked") // the tick got through before the lock: nothing learnt
+	}
+	bgD.finish(135 * time.Second)
 }
